@@ -13,7 +13,7 @@ CHECKS = {
    design="4/C13"),
  "C14": dict(
    spec="spec/Quantise.tla, Quantise_MC.tla, Quantise_Trace.tla",
-   text="TLC enumerates every random draw for every pattern/format/srbits on small hosts and checks neighbour, fixed-point, monotone-in-draw and exact proportionality (counted, not sampled). The real code is run with torch.randint replaced by an enumerator of all 2^srbits draws; per input the step position is validated by the trace spec against the algorithm model and the proportionality invariant at host (8,23).",
+   text="TLC enumerates every random draw for every pattern/format/srbits on small hosts and checks neighbour, fixed-point, monotone-in-draw and exact proportionality (counted, not sampled). The real code is run with torch.randint replaced by an enumerator of all 2^srbits draws; per input the step position is validated by the trace spec against the algorithm model and the proportionality invariant at host (8,23). A third of the (E, M, srbits) cases go through one long-lived stochastic FPFormat whose fields are re-assigned after use.",
    note="The srbits sequence of every format (coarse to fine, default last) goes through one of the entry points quantise / quantise_fwd / quantise_bwd (thorough: all three). Trusted: torch.randint is the only random source; fractional position is taken on the float32 prescaled value with a 2^-(24-M) slack where the prescale rounds (documented reading).",
    technique="TLA+ spec + TLC exhaustive draw enumeration; trace validation with substituted random source",
    design="4/C14"),
@@ -61,7 +61,7 @@ CHECKS = {
    design="4/C02"),
  "C03": dict(
    spec="spec/ScaledOps.tla (Scale2, Count, CountSet), ScaledOps_MC.tla, ScaledOps_Eval.tla",
-   text="The pinned squared scales are written as the code computes them, next to an independent term-count model (explicit index sets of each contraction). TLC checks Scale2*Count = 1 for every op/slot over all small shapes (exceptions explicit), closed-form counts = index-set counts, residual weights' squares = 1. For seeded larger configurations TLC returns Scale2 and Count as rationals; the harness compares the scalars fitted on the real op and the term counts measured on the all-ones torch reference: three-way agreement.",
+   text="The pinned squared scales are written as the code computes them, next to an independent term-count model (explicit index sets of each contraction). TLC checks Scale2*Count = 1 for every op/slot over all small shapes (exceptions explicit), closed-form counts = index-set counts, residual weights' squares = 1. For seeded larger configurations TLC returns Scale2 and Count as rationals; the harness compares the scalars fitted on the real op and the term counts measured on the all-ones torch reference: three-way agreement. Every gradient slot's scale is measured again with only that input requiring a gradient.",
    note="Fitted scalars at 1e-9 (rms_norm 1e-5); conv input-gradient count is the mean over one stride period at interior positions; padded convolutions are excepted for output/input/weight as the property states.",
    technique="TLA+ term-count model + TLC; replay of TLC-evaluated scales/counts against fitted scalars and measured counts",
    design="4/C03"),
@@ -79,13 +79,13 @@ CHECKS = {
    design="4/C06"),
  "C18": dict(
    spec="spec/TrackScales.tla, TrackScales_MC.tla, TrackScales_Trace.tla",
-   text="TrackScales contains a reverse-mode interpreter over small integer vectors and the instrumentation rule of run_node (identity tracker after every float node). TLC checks for every program with <= 2 ops (thorough: 3 ops by simulation), fan-out, bool masks, detached branches and 1-2 outputs that instrumentation leaves values and input gradients unchanged, that the tracker sees the value that flowed and the TOTAL gradient (summed over all consumers), and that non-float values are never instrumented; a detaching tracker is refuted. Real module graphs (direct backend, analyse_module's interpreter, TorchDynamo track_scales) are run with and without tracking (bitwise comparison) and every recorded metric is validated by TrackScales_Trace against integer sums captured independently with a plain fx.Interpreter + retain_grad; a second family runs float64/float32 graphs on dyadic non-integer values (exact sums, not representable in a narrower type) with the statistics compared in float64.",
+   text="TrackScales contains a reverse-mode interpreter over small integer vectors and the instrumentation rule of run_node (identity tracker after every float node). TLC checks for every program with <= 2 ops (thorough: 3 ops by simulation), fan-out, bool masks, detached branches and 1-2 outputs that instrumentation leaves values and input gradients unchanged, that the tracker sees the value that flowed and the TOTAL gradient (summed over all consumers), and that non-float values are never instrumented; a detaching tracker is refuted. Real module graphs (direct backend, analyse_module's interpreter, TorchDynamo track_scales) are run with and without tracking (bitwise comparison) and every recorded metric is validated by TrackScales_Trace against integer sums captured independently with a plain fx.Interpreter + retain_grad; a second family runs float64/float32 graphs on dyadic non-integer values (exact sums, not representable in a narrower type) with the statistics compared in float64. The TorchDynamo family's module has, by variant, a frozen weight and a float buffer taking part: tracking must leave requires_grad flags and absent gradients as they were.",
    note="Integer-valued tensors (|v| <= 64) make mean_abs/abs_mean/abs_max/abs_min/numel exact rationals; std is compared through std^2 n(n-1) with a slack of 8 + exact/2^18 (metrics are float32). Graphs leaving the exact range are skipped and counted.",
    technique="TLA+ reverse-mode interpreter spec + TLC; trace validation of recorded metrics against independently captured tensors",
    design="4/C18"),
  "C19": dict(
    spec="spec/FxGraph.tla, Prune.tla, Prune_MC.tla, Prune_Trace.tla",
-   text="FxGraph models torch.fx graphs (ordered node list, nested arguments, replace-all-uses, erase-needs-no-users); Prune models _prune and the three helpers one loop iteration per step, next to a declarative statement (never raises, well-formed, original order, exactly the documented removals, single-float-input nodes bypassed wherever they occur, edges preserved). TLC checks all tracked graphs with <= 2 (thorough 3: 471k states) op nodes incl. list arguments, keyword tensors, non-float nodes, 1-2 outputs, 2 rtols, 3 target sets, and refutes the two pre-fix deviations. Tracked graphs of random real modules (ScaleTrackingBackend forward+backward, and track_scales through TorchDynamo) are pruned by the real helpers for rtol in {2^-16,2^-8,2^-2} and random target sets; input graph, result, input graph afterwards and any exception are validated by Prune_Trace (node list, order, every argument position, immutability of the input).",
+   text="FxGraph models torch.fx graphs (ordered node list, nested arguments, replace-all-uses, erase-needs-no-users); Prune models _prune and the three helpers one loop iteration per step, next to a declarative statement (never raises, well-formed, original order, exactly the documented removals, single-float-input nodes bypassed wherever they occur, edges preserved). TLC checks all tracked graphs with <= 2 (thorough 3: 471k states) op nodes incl. list arguments, keyword tensors, non-float nodes, 1-2 outputs, 2 rtols, 3 target sets, and refutes the two pre-fix deviations. Tracked graphs of random real modules (ScaleTrackingBackend forward+backward, and track_scales through TorchDynamo) are pruned by the real helpers for rtol in {2^-16,2^-8,2^-2} and random target sets; input graph, result, input graph afterwards and any exception are validated by Prune_Trace (node list, order, every argument position, immutability of the input). A share of the graphs (hand-built and TorchDynamo) has a CALL node named 'output': the output node is identified by its kind in the spec and in the projection.",
    note="The helpers are also chained as analysis.plot does (non_float, then same_scale on its result, then selected). Metrics come from integer-valued tensors (power-of-two numel) so mean_abs is an exact small rational; skip counters are in the evidence and a degenerate generator is a machinery failure; (graph, rtol) pairs within 1e-9 of the isclose threshold are skipped.",
    technique="TLA+ graph-rewriting spec + TLC over all small graphs; trace validation of real pruning runs",
    design="4/C19"),
@@ -103,7 +103,7 @@ CHECKS = {
    design="4/C15"),
  "C17": dict(
    spec="spec/Transforms.tla, Transforms_MC.tla, Transforms_Trace.tla",
-   text="Transforms models apply_transform as a heap of modules (backend list, lazy re-trace flag, cached pipeline copied by reference on deepcopy, _order_backends) with Apply and Call actions. TLC explores every history with <= 4 modules and <= 3 calls (233k states; transforms may branch from any module, calls interleaved) and checks: the original is never touched, every pipeline is canonical (each transform once, unit scaling before quantisation, track/compile last), the pipeline in effect at a call is the module's own, same transform set => same pipeline, repeated calls do not re-run; a stale-cache and a no-reorder deviation are refuted. Histories are replayed on a family of real modules; per step the harness records which backends actually ran (library log records), a bitwise fingerprint of outputs and gradients (seeds pinned), whether any other module's parameters/buffers changed and storage sharing; Histories come from the harness AND from TLC itself (Transforms_Gen: all 1170 maximal histories with 3 modules x 3 calls, quick replays 30, thorough all + simulated 5x5 histories). Transforms_Trace validates each history (nothing else modified, storage disjoint, canonical pipeline, the computed function depends only on the set of transforms).",
+   text="Transforms models apply_transform as a heap of modules (backend list, lazy re-trace flag, cached pipeline copied by reference on deepcopy, _order_backends) with Apply and Call actions. TLC explores every history with <= 4 modules and <= 3 calls (233k states; transforms may branch from any module, calls interleaved) and checks: the original is never touched, every pipeline is canonical (each transform once, unit scaling before quantisation, track/compile last), the pipeline in effect at a call is the module's own, same transform set => same pipeline, repeated calls do not re-run; a stale-cache and a no-reorder deviation are refuted. Histories are replayed on a family of real modules; per step the harness records which backends actually ran (library log records), a bitwise fingerprint of outputs and gradients (seeds pinned), whether any other module's parameters/buffers changed and storage sharing; Histories come from the harness AND from TLC itself (Transforms_Gen: all 1170 maximal histories with 3 modules x 3 calls, quick replays 30, thorough all + simulated 5x5 histories). Transforms_Trace validates each history (nothing else modified, storage disjoint, canonical pipeline, the computed function depends only on the set of transforms). The lossless format pair does not count in the transform set that keys the function: unit_scale + lossless simulation must compute bitwise what unit_scale alone computes.",
    note="Backend-list and flag bookkeeping is compared as drift only; the model includes the global torch._dynamo.reset() of a first call (other modules re-trace with their own pipeline), so the unchanged tree is drift-free. compile (Inductor) only in the thorough tier.",
    technique="TLA+ heap-of-modules state machine + TLC over all histories; trace validation of replayed transform/call histories",
    design="4/C17"),
@@ -115,7 +115,7 @@ CHECKS = {
    design="4/C08"),
  "C20": dict(
    spec="spec/ScaledOps.tla (memo machine, Modes), ScaledOps_MC.tla, ScaledOps_Trace.tla",
-   text="The memo machine of ScaledOps keys a factor class by (configuration, slot) only; the events of one configuration recorded in eager mode, under torch.compile (aot_eager; thorough: inductor), through the library's leaf-wrapping tracer (gradients) and through plain fx.symbolic_trace (forward, where traceable) carry the same configuration id, so ScaledOps_Trace rejects a factor that differs between modes. In addition outputs and gradients are compared element-wise with the eager run with a dtype-scaled bound (float64: 1e-12; compositions: 64 x their float32-vs-float64 amplification x eps), for a slice of the C01/C02 configurations (every op, f64/f32/bf16) and for random compositions of 2-6 unit-scaled ops and modules.",
+   text="The memo machine of ScaledOps keys a factor class by (configuration, slot) only; the events of one configuration recorded in eager mode, under torch.compile (aot_eager; thorough: inductor), through the library's leaf-wrapping tracer (gradients) and through plain fx.symbolic_trace (forward, where traceable) carry the same configuration id, so ScaledOps_Trace rejects a factor that differs between modes. In addition outputs and gradients are compared element-wise with the eager run with a dtype-scaled bound (float64: 1e-12; compositions: 64 x their float32-vs-float64 amplification x eps), for a slice of the C01/C02 configurations (every op, f64/f32/bf16) and for random compositions of 2-6 unit-scaled ops and modules. ops.configs always contains adds with a one-element operand of rank >= 1, and the variant key distinguishes how a one-element operand is spelt.",
    note="TorchDynamo/AOT autograd/Inductor are trusted as given. Every public module is also compiled as a module and called with changing batch sizes; compositions are called twice (second batch size); an op that was fx-traceable on the pinned tree and stops being so violates the fx clause. Dropout with p>0 in training mode is excluded (RNG streams differ in torch itself). Ops that plain torch.fx cannot trace symbolically are skipped for the fx clause and counted in the evidence.",
    technique="TLA+ memo machine across execution modes; trace validation + element-wise closeness to eager",
    design="4/C20"),
